@@ -1028,8 +1028,19 @@ def c15_generate(rng, tier):
     b = tag_cmp(genhist.gen_txt_fields(rng, count(tier, 300, 3000)), ["line", "parsed_line", "parsed_text", "stripped"])
     # the file layer of the TXT format: writer text and reader loops against Model/TxtFile.lean; a
     # difference there is a broken tie, not by itself a violation (_rel = [])
-    c = tag_cmp(genhist.gen_txt_write(rng, count(tier, 150, 1500)), ["text"])
-    d = tag_cmp(genhist.gen_txt_read(rng, count(tier, 400, 4000)), ["parsed"])
+    c = genhist.gen_txt_write(rng, count(tier, 150, 1500))
+    for s in c:
+        # compared where the format can represent the names (what the property is about): the file must
+        # be in the image of the model's writer - read with the model's reader and written again it is
+        # the same text - or equal to the model's canonical text
+        s["_cmp"] = ["text"] if all(genhist.txt_ok(nm) for nm in s["names"]) else []
+    # reader loops: on files as the writer produces them (what the round-trip theorems are about) the
+    # model's parse must equal what the reader hands to the constructors; on hand-damaged files the
+    # property pins nothing down beyond "no raise, None or a well-formed object" (fault enumeration
+    # above), so there the agreement is measured and recorded, not demanded
+    d = genhist.gen_txt_read(rng, count(tier, 400, 4000))
+    for s in d:
+        s["_cmp"] = ["parsed"] if s.get("_pinned") else []
     # the JSON text layer: writer text against Model/JsonText.lean; prefixes and damaged variants
     # through the model's scanner and through json.loads
     e = tag_cmp(genhist.gen_json_text(rng, count(tier, 150, 1500)), ["text", "prefix_not_none"])
@@ -1083,7 +1094,7 @@ def c15_judge(rec):
 
 NONTRIVIAL_RULE["C15"] = "non-trivial: n>=2 vertices; distinct by canonical scenario"
 PROPS["C15"] = {"generate": c15_generate, "search": c15_search,
-                "strata": lambda rec: ([f"json_shape_text_equal={isinstance(rec['lean'], dict) and any(isinstance(p, dict) and p.get('text') == rec['lean'].get('shape_text') for p in rec['py'].values())}"] if rec['scn'].get('op') == 'json_text' else []) + [f"op={rec['scn'].get('op')}", f"kind={rec['scn'].get('kind', rec['scn'].get('_kind'))}", f"names={rec['scn'].get('_style')}", f"txt={rec['scn'].get('txt')}", f"n={rec['scn'].get('n')}"],
+                "strata": lambda rec: ([f"txt_shape_text_equal={isinstance(rec['lean'], dict) and any(isinstance(p, dict) and p.get('text') == rec['lean'].get('shape_text') for p in rec['py'].values())}"] if rec['scn'].get('op') == 'txt_write' else []) + ([f"txt_read_pinned={bool(rec['scn'].get('_pinned'))}", "txt_read_damaged_parse_agrees=" + str(isinstance(rec['lean'], dict) and all(isinstance(p, dict) and p.get('parsed') == rec['lean'].get('parsed') for p in rec['py'].values()))] if rec['scn'].get('op') == 'txt_read' else []) + ([f"json_shape_text_equal={isinstance(rec['lean'], dict) and any(isinstance(p, dict) and p.get('text') == rec['lean'].get('shape_text') for p in rec['py'].values())}"] if rec['scn'].get('op') == 'json_text' else []) + [f"op={rec['scn'].get('op')}", f"kind={rec['scn'].get('kind', rec['scn'].get('_kind'))}", f"names={rec['scn'].get('_style')}", f"txt={rec['scn'].get('txt')}", f"n={rec['scn'].get('n')}"],
                 "nontrivial": lambda rec: rec["scn"].get("n", len(rec["scn"].get("names", []))) >= 2,
                 "judge": c15_judge,
                 "level": "proof",
